@@ -5,12 +5,30 @@ from . import core, tv
 
 
 def run_property(pid, cases, tier, chunk=30, title='', bounds=None, cfg=None, extra_evidence=None, level='translation_validation',
-                 assumptions=None, post=None, z3_timeout_ms=30000, minify=False):
+                 assumptions=None, post=None, z3_timeout_ms=30000, minify=False, keep_all_too=False):
     t0 = time.time()
     work = os.path.join(core.scratch(), pid)
     os.makedirs(work, exist_ok=True)
     known = core.load_known(pid)
     rep = tv.check_cases(cases, work, chunk=chunk, cfg=cfg, known=known, z3_timeout_ms=z3_timeout_ms, minify=minify)
+    variant_verified = None
+    if keep_all_too:
+        # second pass: the same programs linked with every declaration kept alive (dead-code elimination switched off);
+        # a case counts as verified only if both linked outputs satisfy the reference on every path
+        work2 = os.path.join(core.scratch(), pid + '_keepall')
+        os.makedirs(work2, exist_ok=True)
+        rep2 = tv.check_cases(cases, work2, chunk=chunk, cfg=cfg, known=known, z3_timeout_ms=z3_timeout_ms, minify=minify, keep_all=True)
+        for v in rep2.violations:
+            v['keep_all'] = True
+            v['why'] = '[linked with every declaration kept] ' + v['why']
+        for i in rep2.inconclusive:
+            i['reason'] = '[keep-all link] ' + i['reason']
+        both = set(rep.verified_cases) & set(rep2.verified_cases)
+        variant_verified = {'dce': len(rep.verified_cases), 'keep_all': len(rep2.verified_cases), 'both': len(both)}
+        n_cases = rep.cases
+        rep.merge(rep2)
+        rep.cases = n_cases
+        rep.verified_cases = sorted(both)
     violations = 0
     lines = []
     noev = bool(os.environ.get('VERIF_NO_EVIDENCE'))     # used when trying seeded changes: leave the committed evidence alone
@@ -19,9 +37,9 @@ def run_property(pid, cases, tier, chunk=30, title='', bounds=None, cfg=None, ex
     confirmed, spurious = [], []
     for v in rep.violations:
         case = v['case']
-        outdir = os.path.join(replay_root, v['tag'])
+        outdir = os.path.join(replay_root, v['tag'] + ('_keepall' if v.get('keep_all') else ''))
         try:
-            info = tv.replay(case, v['model'], outdir, minify=minify)
+            info = tv.replay(case, v['model'], outdir, minify=minify, keep_all=bool(v.get('keep_all')))
             go_lines, go_end = tv.normalise_output(info['go']['rc'], info['go']['stdout'], info['go']['stderr'])
             js_lines, js_end = tv.normalise_output(info['js']['rc'], info['js']['stdout'], info['js']['stderr'])
             differs = (go_lines != js_lines) or (go_end != js_end)
@@ -93,6 +111,8 @@ def run_property(pid, cases, tier, chunk=30, title='', bounds=None, cfg=None, ex
             '-0 and +0 are identified in integer context',
         ],
     }
+    if variant_verified:
+        ev['coverage']['linked_variants'] = variant_verified
     if extra_evidence:
         ev['coverage'].update(extra_evidence)
     if post:
